@@ -211,6 +211,8 @@ def ev(sc: Scope, e, want=None):
         if what[0] == "sig":
             return [node(sc.path, e[1] + "." + ".".join(path), i) for i in range(what[1])]
         return {p: [node(sc.path, e[1] + "." + ".".join(path + p), i) for i in range(w)] for p, w in bundle_leaves(sc.design, what[1])}
+    if k in ("osig", "ob", "opref"):
+        raise Invalid("orphan", f"{k} owned by {e[-1]}")
     if k in ("anon", "dict"):
         out = {}
         for name, sub in e[1]:
@@ -368,9 +370,7 @@ def walk(design, mname, path, uf, devices, stack, strict_extra=True):
             for pname, e in conns_of(d):
                 if e[0] == "nc":
                     nc_ids.setdefault(e[1], []).append((d[1], pname))
-    for ncid, uses in nc_ids.items():
-        if len(uses) > 1:
-            raise Invalid("noconn_shared", f"{ncid} used by {uses}")
+    # one NoConn object feeding several ports is well-formed ("shared no-connects"): every use is its own isolated net
     for ip in nc_ports:
         if ip in sc.prefs_used:
             raise Invalid("noconn_referenced", f"{ip}")
@@ -489,6 +489,8 @@ def expr_width(design, mod, e):
 # ------------------------------------------------------------------------------------------------
 def _prefs_in(e, out):
     k = e[0]
+    if k in ("osig", "ob", "opref"):
+        return out
     if k == "pref":
         out.append((e[1], e[2]))
     elif k in ("idx", "rng"):
